@@ -303,10 +303,17 @@ func (fx *FnCtx) contractCallWithNames(st *State, pc *Term, fc *FuncContract, na
 			pre.vars[n] = SV{V: args[i]}
 		}
 	}
+	assumePre := false
+	if top := fx.root.top; top != nil && top.fc != nil && top.fc.AssumePre[fc.Name] {
+		assumePre = true
+		fx.root.noteOnce("ASSUMED in " + top.fn.Name() + ": the preconditions of " + fc.Name + " hold at its call (declared 'assumes pre'; they are conditions on the caller's history)")
+	}
 	for _, c := range fc.Requires {
 		cond := fx.evalBool(pre, c.Expr)
-		o := fx.addObl(fx.oblName("pre("+fc.Name+")"), "requires", pc, cond, c.Props, nil, "precondition of "+fc.Name+": "+c.Src)
-		_ = o
+		if !assumePre {
+			o := fx.addObl(fx.oblName("pre("+fc.Name+")"), "requires", pc, cond, c.Props, nil, "precondition of "+fc.Name+": "+c.Src)
+			_ = o
+		}
 		fx.assume(Implies(pc, cond))
 	}
 	// a callee that panics under a stated condition must not be called under it (nothing recovers)
@@ -393,7 +400,16 @@ func (fx *FnCtx) contractCallWithNames(st *State, pc *Term, fc *FuncContract, na
 			}
 		}
 	}
+	ghostNames := map[string]bool{}
+	for _, g := range fc.Ghost {
+		ghostNames[g.Name] = true
+	}
 	for _, c := range fc.Ensures {
+		if len(ghostNames) > 0 && mentionsIdent(c.Expr, ghostNames) {
+			// a postcondition stated through the callee's own ghost variables (witnesses) means
+			// nothing to a caller: it is not assumed (leaving an assumption out is sound)
+			continue
+		}
 		if fx.root.boundedK > 0 && hasUnboundedQuant(c.Expr) {
 			// bounded instance search looks for concrete failing runs (which are replayed on the real
 			// code): a callee postcondition that cannot be made quantifier-free is left out there
@@ -495,4 +511,31 @@ func (v *Verifier) VerifyLemma(l *Lemma) (root *RootCtx, err error) {
 	cl := &Clause{Kind: "lemma", Props: l.Props, Label: l.Name, Src: l.Src, Line: l.Line, File: l.File}
 	fx.addObl(short, "lemma", True, cond, l.Props, cl, "lemma: "+l.Src)
 	return root, nil
+}
+
+// mentionsIdent: the expression mentions one of the identifiers.
+func mentionsIdent(e SpecExpr, names map[string]bool) bool {
+	switch x := e.(type) {
+	case *SIdent:
+		return names[x.Name]
+	case *SQuant:
+		return (x.Lo != nil && (mentionsIdent(x.Lo, names) || mentionsIdent(x.Hi, names))) || mentionsIdent(x.Body, names)
+	case *SBin:
+		return mentionsIdent(x.L, names) || mentionsIdent(x.R, names)
+	case *SUn:
+		return mentionsIdent(x.X, names)
+	case *SCall:
+		for _, a := range x.Args {
+			if mentionsIdent(a, names) {
+				return true
+			}
+		}
+	case *SIndex:
+		return mentionsIdent(x.X, names) || mentionsIdent(x.I, names)
+	case *SField:
+		return mentionsIdent(x.X, names)
+	case *SSlice:
+		return mentionsIdent(x.X, names) || (x.Lo != nil && mentionsIdent(x.Lo, names)) || (x.Hi != nil && mentionsIdent(x.Hi, names))
+	}
+	return false
 }
